@@ -126,24 +126,29 @@ def run(ctx):
 
     # ---- independent spec chain with real HMAC, all four hashes -----------------------------------
     n_real = 0
-    for hn, h in (("sha1", hashes.SHA1()), ("sha256", hashes.SHA256()), ("sha384", hashes.SHA384()), ("sha512", hashes.SHA512())):
-        spec = SpecChain(lambda k, c, hn=hn: kbkdf_hmac(hn, k, LABEL, c, 64), root, sd, l0)
-        # root-key path: compute_l1_key must be K1(31)
-        if g.compute_l1_key(sd, RK, l0, root, h) != spec.K1[31]:
-            ctx.violation("compute_l1_key differs from the spec chain (real HMAC)", {"hash": hn}, "differs", "K1(31)")
-        sample = [(31, 31, 17, 13), (31, 31, 0, 0), (31, 31, 31, 31), (17, 13, 17, 13), (17, 13, 16, 31), (17, 13, 0, 0), (17, 31, 17, 0), (0, 5, 0, 0)]
-        for _ in range(400 if ctx.thorough else 40):
-            a, b = rng.randrange(32), rng.randrange(32)
-            r1 = rng.randrange(a + 1)
-            r2 = rng.randrange(32) if r1 < a else rng.randrange(b + 1)
-            sample.append((a, b, r1, r2))
-        for (a, b, r1, r2) in sample:
-            for (k1, k2) in spec.envelopes(a, b):
-                env = gen.make_env(l0=l0, l1=a, l2=b, l1_key=k1, l2_key=k2)
-                got = g.compute_l2_key(h, r1, r2, env)
-                n_real += 1
-                if got != spec.K2[(r1, r2)]:
-                    ctx.violation("derived L2 key differs from the MS-GKDI chain (real HMAC)", {"hash": hn, "envelope": [a, b], "request": [r1, r2]}, hx(got)[:32], hx(spec.K2[(r1, r2)])[:32])
+    with toycrypto.recording() as rlog:
+        for hn, h in (("sha1", hashes.SHA1()), ("sha256", hashes.SHA256()), ("sha384", hashes.SHA384()), ("sha512", hashes.SHA512())):
+            spec = SpecChain(lambda k, c, hn=hn: kbkdf_hmac(hn, k, LABEL, c, 64), root, sd, l0)
+            # root-key path: compute_l1_key must be K1(31)
+            if g.compute_l1_key(sd, RK, l0, root, h) != spec.K1[31]:
+                ctx.violation("compute_l1_key differs from the spec chain (real HMAC)", {"hash": hn}, "differs", "K1(31)")
+            sample = [(31, 31, 17, 13), (31, 31, 0, 0), (31, 31, 31, 31), (17, 13, 17, 13), (17, 13, 16, 31), (17, 13, 0, 0), (17, 31, 17, 0), (0, 5, 0, 0)]
+            for _ in range(400 if ctx.thorough else 40):
+                a, b = rng.randrange(32), rng.randrange(32)
+                r1 = rng.randrange(a + 1)
+                r2 = rng.randrange(32) if r1 < a else rng.randrange(b + 1)
+                sample.append((a, b, r1, r2))
+            for (a, b, r1, r2) in sample:
+                for (k1, k2) in spec.envelopes(a, b):
+                    env = gen.make_env(l0=l0, l1=a, l2=b, l1_key=k1, l2_key=k2)
+                    rlog.reset_budget()
+                    try:
+                        got = g.compute_l2_key(h, r1, r2, env)
+                    except Exception as e:  # noqa  (a covered request must derive a key; a runaway walk hits the KDF budget)
+                        got = ("raised " + type(e).__name__).encode()
+                    n_real += 1
+                    if got != spec.K2[(r1, r2)]:
+                        ctx.violation("derived L2 key differs from the MS-GKDI chain (real HMAC)", {"hash": hn, "envelope": [a, b], "request": [r1, r2]}, hx(got)[:32], hx(spec.K2[(r1, r2)])[:32])
     ctx.count("real_hmac_cases", n_real)
 
     # ---- thorough: the entire lattice against the spec chain (fast KDF), step counts against the model
